@@ -16,7 +16,7 @@ CLAIMS = {
         "note": TB,
     },
     "C10": {
-        "text": "Theorems terminates / error_only_from_origin / store_fault_means_origin: every program is a finite tree with an execution for every environment; a round trip always yields a response or an error, an error only when its last origin call failed; when store reads fail or return undecodable bytes the client's own request goes to the origin (or 504 for only-if-cached) and the result is that call's outcome. Panic-freedom of the Go code itself is evidenced by the correspondence run (recover around every RoundTrip) and the monitor, not by the theorem.",
+        "text": "Theorems terminates / error_only_from_origin / store_fault_means_origin: every program is a finite tree with an execution for every environment; a round trip always yields a response or an error, an error only when its last origin call failed; when store reads fail or return undecodable bytes the client's own request goes to the origin (or 504 for only-if-cached) and the result is that call's outcome. Panic-freedom of the Go code itself is evidenced by the correspondence run (recover around every RoundTrip) and the monitor, not by the theorem; so is \"nor hangs\" in virtual time (pending origin calls at quiescence, unreleased bodies, a stored response returned long after the failure it stands in for had arrived).",
         "note": TB + " Not modelled: goroutine scheduling, hangs inside a backend.",
     },
     "C11": {
